@@ -114,6 +114,22 @@ RECURSIVE Num(_)
 SibPos(i) == Cardinality({j \in 1..i : Parent(j) = Parent(i)})
 Num(i) == IF i = 0 THEN <<>> ELSE Num(Parent(i)) \o <<SibPos(i)>>
 
+(* ---------------- table of contents ---------------- *)
+(* SectionUtils.tableofcontents of the document node, as every page of the default theme prints it: nothing below depth 1 or  *)
+(* when no child of the document owns a file; children that own no file are listed only with toc-non-files; the nested levels *)
+(* come from fulltableofcontents (same filter, no further condition) cut at toc-depth by the TableOfContents proxy.           *)
+Listed(c, nonfiles) == nonfiles \/ Owns(c)
+RECURSIVE TocBelow(_, _, _, _)
+(* the entries below unit p, at proxy level lvl, flattened in document order *)
+TocBelow(p, lvl, depth, nonfiles) ==
+    IF lvl > depth THEN <<>>
+    ELSE LET cs == SelectSeq(Children(p), LAMBDA c : Listed(c, nonfiles))
+             RECURSIVE Each(_)
+             Each(q) == IF q = <<>> THEN <<>> ELSE <<Head(q)>> \o TocBelow(Head(q), lvl + 1, depth, nonfiles) \o Each(Tail(q))
+         IN Each(cs)
+Toc(depth, nonfiles) == IF depth < 1 \/ ~(\E c \in 1..N : Parent(c) = 0 /\ Owns(c)) THEN <<>> ELSE TocBelow(0, 1, depth, nonfiles)
+TocDepths == 0..3
+
 (* SectionUtils.links: previous / next among the units that own a file, in document order; up = the parent unit *)
 Pos(f) == CHOOSE k \in 1..Len(Owners) : Owners[k] = f
 Nav(f) == [prev |-> IF Pos(f) = 1 THEN <<>> ELSE Names[Owners[Pos(f) - 1]],
@@ -131,6 +147,11 @@ NamesDistinct == done => \A a, b \in 0..N : (Owns(a) /\ Owns(b) /\ a # b) => Nam
 NavIsAChain == done => /\ Nav(0).prev = <<>>
                        /\ \A k \in 1..(Len(Owners) - 1) : Nav(Owners[k]).next = Names[Owners[k + 1]] /\ Nav(Owners[k + 1]).prev = Names[Owners[k]]
                        /\ \A f \in 1..N : Owns(f) => Owns(Parent(f))
+(* with toc-depth at least the split level the table of contents alone leads from the start page to every file *)
+TocReachesEveryFile == done => \A d \in TocDepths : (d >= 3 /\ N >= 1 /\ Owns(1)) =>
+                                  \A f \in 1..N : Owns(f) => \E k \in 1..Len(Toc(d, FALSE)) : Toc(d, FALSE)[k] = f
+(* every entry is a unit at proxy depth <= toc-depth and, without toc-non-files, owns a file *)
+TocEntriesOwnFiles == done => \A d \in TocDepths : \A k \in 1..Len(Toc(d, FALSE)) : Owns(Toc(d, FALSE)[k])
 LinksLand == done => \A r \in 1..Len(refs) :
     LET u == Target(refs[r]) IN
     /\ \E f \in 0..N : Owns(f) /\ Names[f] = u.file /\ (u.frag => \E k \in 1..Len(Written(f)) : Written(f)[k] = B(u.id))
@@ -140,5 +161,6 @@ Emit == done => PrintT(<<"BEH", ToJson([nodes |-> nodes, docfn |-> docfn, split 
                                         urls |-> [r \in 1..Len(refs) |-> Target(refs[r])],
                                         shown |-> [r \in 1..Len(refs) |-> IF refs[r].kind = "sec" THEN Num(refs[r].to) ELSE <<refs[r].to + 1>>],
                                         nums |-> [i \in 1..N |-> Num(i)],
+                                        tocs |-> [d \in 1..4 |-> [depth |-> d - 1, files |-> Toc(d - 1, FALSE), all |-> Toc(d - 1, TRUE)]],
                                         allurls |-> [i \in 1..N |-> Url(i)], homes |-> [i \in 1..(N + 1) |-> Names[FileOf(i - 1)]]])>>)
 =============================================================================
